@@ -170,6 +170,11 @@ def check(run):
             if nd:
                 w, e = update_writes(mod, an, u["policy"])
                 upd[u["policy"]] = w
+    # methods with compile-time offsets (the cross-check of a runtime_checks policy is on the call path too)
+    so_units = callpath.build_units(run, ["release", "debug", "p_dbg2", "p_map", "p_ind"] if run.tier == "quick" else pols, ["r"], static_shapes=callpath.STATIC_SHAPES, tag="so")
+    pp2 = {}
+    for u in so_units:
+        analyse_unit(run, u, r1, pp2)
     if run.tier == "thorough":
         n_repo = 0
         rus = callpath.repo_units(run)
